@@ -374,7 +374,7 @@ func (t *termer) call(c *ssa.Call, ctx *Ctx) *Term {
 		name = ifaceMethodName(cc)
 		args = append(args, t.term(cc.Value, ctx))
 	} else if fn := cc.StaticCallee(); fn != nil {
-		name = shortName(fnName(fn))
+		name = genericName(shortName(fnName(fn)))
 	} else if b, ok := cc.Value.(*ssa.Builtin); ok {
 		name = b.Name()
 	} else {
